@@ -203,3 +203,62 @@ for _which in ("categorical", "gaussian", "binomial") + tuple(INNER):
         copy_clauses_labelled(vc, sl, r, "copied")
         _wired(vc, inb, blk, l2b, ins, "wires")
     obligation(f"C06.evidence.step.{_which}", "C06", [f"{SF}:evidence"])(_h)
+
+
+# ------------------------------------------------------------------------------------------------ concatenate (C06), nested loops
+for _which in ("categorical", "embedding", "gaussian") + tuple(INNER):
+    def _h(vc, _which=_which):
+        """inner loop of concatenate, ONE layer of one operand, from an arbitrary state of the maps: a block holding a reference copy of exactly this
+        layer, wired to the blocks of its inputs in order, appended and recorded; nothing else"""
+        sl, v, arity = _layer(vc, _which)
+        sc, ins, l2b, inb = _state(vc, sl, arity)
+        loc = {"sc": sc, "layers_to_block": l2b, "blocks": [], "in_blocks": inb, "output_blocks": []}
+        vc.run_loop_body(f"{SF}:concatenate", loc, sl, loop=(0, 0))
+        vc.ensure("exactly_one_block_recorded_for_this_layer", len(l2b.written) == 1 and l2b.written[0][0] is sl)
+        if len(l2b.written) != 1:
+            return
+        blk = l2b.written[0][1]
+        vc.ensure("that_block_appended_to_blocks", len(loc["blocks"]) == 1 and loc["blocks"][0] is blk)
+        vc.ensure("outputs_untouched_inside_the_layer_loop", loc["output_blocks"] == [])
+        r = _single_block(vc, blk, "block")
+        if r is None:
+            return
+        copy_clauses_labelled(vc, sl, r, "copied")
+        _wired(vc, inb, blk, l2b, ins, "wires")
+    obligation(f"C06.concatenate.step.{_which}", "C06", [f"{SF}:concatenate"])(_h)
+
+
+for _m in (1, 2, 3):
+    def _h(vc, _m=_m):
+        """after the layers of one operand: its outputs' blocks are appended to the output list in declared order, after those of earlier operands"""
+        outs = [vc.opaque(f"out{j}", cls=f"{SL}:Layer") for j in range(_m)]
+        sc = Opaque("sc", {"outputs": list(outs)})
+        l2b = LoopMap("layers_to_block")
+        for o in outs:
+            vc.assume(z3.Select(l2b.base.dom, o.const))
+        earlier = vc.opaque("output_block_of_an_earlier_operand")
+        ob = [earlier]
+        loc = {"sc": sc, "layers_to_block": l2b, "blocks": [], "in_blocks": LoopMap("in_blocks"), "output_blocks": ob}
+        vc.run_suffix(f"{SF}:concatenate", loc, loop=(0, 0))
+        got = loc["output_blocks"]
+        vc.ensure("same_output_list_extended", got is ob and len(got) == 1 + _m and got[0] is earlier)
+        vc.ensure("blocks_of_this_operands_outputs_in_declared_order", len(got) == 1 + _m and all(
+            isinstance(b, RefVal) and vc.must(ref_term(b) == z3.Select(l2b.base.val, o.const)) for b, o in zip(got[1:], outs)))
+        vc.ensure("maps_untouched", l2b.written == [])
+    obligation(f"C06.concatenate.operand_outputs{_m}", "C06", [f"{SF}:concatenate"])(_h)
+
+
+@obligation("C06.concatenate.suffix", "C06", [f"{SF}:concatenate"])
+def _(vc):
+    scs = [vc.opaque("c0"), vc.opaque("c1")]
+    blocks, inb, ob = [vc.opaque("b0")], LoopMap("in_blocks"), [vc.opaque("o0"), vc.opaque("o1")]
+    seen = {}
+    vc.I.summaries[f"{SCI}:Circuit.from_operation"] = lambda I, a, k: seen.update(a=a, k=k) or vc.opaque("result")
+    loc = {"scs": scs, "layers_to_block": LoopMap("layers_to_block"), "blocks": blocks, "in_blocks": inb, "output_blocks": ob}
+    kind, res = vc.run_suffix(f"{SF}:concatenate", loc)
+    a, k = seen.get("a", []), seen.get("k", {})
+    vc.ensure("returns_the_assembled_circuit", kind == "return" and res is not None)
+    vc.ensure("all_blocks_wires_and_outputs_passed_on", len(a) >= 4 and a[1] is blocks and a[2] is inb and a[3] is ob)
+    op = k.get("operation")
+    vc.ensure("operation_recorded_with_the_operands_in_order", isinstance(op, Obj) and getattr(op.fields.get("operator"), "name", None) == "CONCATENATE" and
+              list(op.fields.get("operands")) == scs)
